@@ -1,27 +1,21 @@
-#!/bin/sh
-# seeded_verify.sh <id-dir under /verif/seeded> : confirms a seeded change independently of the checks:
-#   1. patch applies to a scratch worktree of /repo and the touched packages build and pass their own tests
-#   2. the demonstration fails with the patch and passes without it
-# usage: tools/seeded_verify.sh /verif/seeded/C07-a
-set -e
+#!/bin/bash
+# seeded_verify.sh <dir under /verif/seeded> : confirms a seeded change independently of the checks, in a scratch worktree:
+#   1. demo passes on the clean tree  2. patch applies, module builds, touched packages' own tests pass  3. demo fails with the patch
+# writes <dir>/verify.txt (summary) and <dir>/verify.log (full output)
 D=$(readlink -f "$1"); ID=$(basename "$D")
 export GOFLAGS=-mod=mod GOPROXY=off
 WT=/tmp/seedwt-$ID
-git -C /repo worktree remove --force $WT 2>/dev/null || true
-git -C /repo worktree add -q --detach $WT HEAD
+git -C /repo worktree remove --force $WT 2>/dev/null
+git -C /repo worktree add -q --detach $WT HEAD || exit 2
 trap 'git -C /repo worktree remove --force $WT' EXIT
 cd $WT
-PKGS=$(grep -E '^\+\+\+ b/' $D/patch.diff | sed 's|+++ b/||' | xargs -n1 dirname | sort -u | sed 's|^|./|')
-echo "== touched packages: $PKGS"
-demo_run() { # copies demo files in, runs, removes
-  if [ -f $D/demo_test.go ]; then
-    PKG=$(jq -r .demo_pkg $D/meta.json); cp $D/demo_test.go $WT/$PKG/zz_seeded_demo_test.go
-    (cd $WT && go test -count=1 -run "$(jq -r .demo_run $D/meta.json)" ./$PKG 2>&1 | tail -15); rc=$?
-    rm -f $WT/$PKG/zz_seeded_demo_test.go; return $rc
-  fi
-}
-echo "== demo WITHOUT patch (must pass)"; if demo_run | tee /dev/stderr | grep -q '^ok'; then echo PASS-without; else echo "demo does not pass on clean tree"; fi
-git apply $D/patch.diff
-echo "== build + package tests WITH patch (must pass)"
-go build ./... && go test -count=1 $PKGS 2>&1 | tail -15
-echo "== demo WITH patch (must fail)"; if demo_run | tee /dev/stderr | grep -q '^ok'; then echo "demo still passes with patch (BAD)"; else echo FAIL-with-patch-as-expected; fi
+LOG=$D/verify.log; : > $LOG
+PKG=$(jq -r .demo_pkg $D/meta.json); RUN=$(jq -r .demo_run $D/meta.json)
+PKGS=$(grep -E '^\+\+\+ b/' $D/patch.diff | sed 's|+++ b/||' | xargs -n1 dirname | sort -u | sed 's|^|./|' | tr '\n' ' ')
+demo() { cp $D/demo_test.go $WT/$PKG/zz_seeded_demo_test.go; go test -count=1 -run "$RUN" ./$PKG >> $LOG 2>&1; rc=$?; rm -f $WT/$PKG/zz_seeded_demo_test.go; return $rc; }
+echo "== demo on clean tree" >> $LOG; if demo; then A=pass; else A=FAIL; fi
+if git apply $D/patch.diff 2>>$LOG; then P=applies; else P=NOAPPLY; fi
+echo "== build" >> $LOG; if go build ./... >> $LOG 2>&1; then B=builds; else B=NOBUILD; fi
+echo "== own tests of $PKGS" >> $LOG; if go test -count=1 -vet=off $PKGS >> $LOG 2>&1; then T=tests-pass; else T=TESTS-FAIL; fi
+echo "== demo with patch" >> $LOG; if demo; then C=PASSES-BAD; else C=fails; fi
+echo "$ID head=$(git -C /repo rev-parse --short HEAD) demo-clean=$A patch=$P build=$B suite($PKGS)=$T demo-patched=$C" | tee $D/verify.txt
